@@ -42,4 +42,23 @@ def cleaveSync (s : LSt) (target cleaved : Nat) (svs : List Nat) : LSt :=
         (if kept.isEmpty then (if Gen.annCleaveDeletesEmptiedTarget then [] else te) else kept)
       else s.idx b }
 
+
+/-- `storeLabelElements`: the posted elements are grouped by the body under their position (label 0 is skipped)
+    and added to that body's list, replacing an element at the same position -/
+def postLabels (s : LSt) (new : List Elem) : LSt :=
+  { s with
+    elems := addList s.elems new
+    idx := fun b =>
+      if Gen.annLabelSkipsZero && decide (b = 0) then s.idx b else
+      let adds := (new.filter fun e => decide (s.labelOf e.pos = b)).map nr
+      if adds.isEmpty then s.idx b
+      else if Gen.annLabelPostReplacesSamePos then addList (s.idx b) adds else s.idx b ++ adds }
+
+/-- `deleteElementInLabel` after the block delete: the element at `p` leaves the list of the body under `p` -/
+def deleteLabels (s : LSt) (p : Pos) : LSt :=
+  { s with
+    elems := removePos s.elems p
+    idx := fun b => if Gen.annLabelDeleteRemovesAtPoint && decide (b = s.labelOf p) then removePos (s.idx b) p else s.idx b }
+
+
 end Dvid.AnnLabel
